@@ -14,9 +14,12 @@
       swaps, the reader finds in the packets handed over exactly the canonical values of the
       accepted tracing calls, in call order, and in every packet context the canonical values of
       the user members given to the opening function                           (C01_history)
-   The integer leaf write used by `enc`/`ser` (write_bits of enc_int) is the stream view of what
-   C08 proves about the bit-field macro; the tie of both to the generated C is the byte-level
-   correspondence run (harness/props/c01.py).
+   E. the integer leaf write used by `enc`/`ser` (write_bits of enc_int, on the stream of bits in
+      CTF position order) IS what C08 proves the bit-field macro program does to the window of bytes
+      overlapping the field, for every carrier at least as wide as the field (barectf's case)
+                                                        (C01_macro_is_write_bits, C01_write_is_local)
+   The tie of both models to the generated C is the byte-level correspondence run
+   (harness/props/c01.py, c08.py).
    Hypotheses kept visible: well-formed alignments (1, 2, 4 or a multiple of 8: every power of
    two), array elements are not dynamic arrays (the parser rejects them), values well typed
    (members_ok: strings without NUL and bytes < 256, dynamic array length member = number of
@@ -25,7 +28,8 @@
 From Coq Require Import List Arith Bool ZArith String Lia.
 Import ListNotations.
 From BT.Base Require Import Bits BitsProofs.
-From BT.Layout Require Import Model BuildProofs RoundTrip RecordProofs.
+From BT.Layout Require Import Model BuildProofs RoundTrip RecordProofs BitfieldLink.
+From BT.C Require Bitfield.
 From BT.Tracer Require Import Model Decode RecordDecode History HistoryRecord HistoryStep HistoryMain.
 
 Theorem C01_ops_equal_layout :
@@ -108,3 +112,22 @@ Theorem C01_history :
     exists ds K cur, outs d w1 h ds /\ HI d user cs_size w K cur /\ flat K ++ cur = List.concat ds.
 Proof. exact history_main. Qed.
 Print Assumptions C01_history.
+
+(* E: the stream-level integer write is the bit-field macro's effect on the window of bytes *)
+Theorem C01_macro_is_write_bits :
+  forall bo W sg start len z win,
+    In W [8; 16; 32; 64] -> start < 8 -> 1 <= len <= 64 -> len <= W ->
+    List.length win = (start + len + 7) / 8 -> Forall (fun b => List.length b = 8) win ->
+    exists win', Bitfield.bf_write (cbo bo) W sg start len (bits_of_Z W z) win = Some win' /\
+                 stream_of_win bo win' = write_bits start (enc_int bo len z) (stream_of_win bo win).
+Proof. exact macro_is_write_bits. Qed.
+Print Assumptions C01_macro_is_write_bits.
+
+Theorem C01_write_is_local :
+  forall q r bs s, r < 8 -> 8 * (q + (r + List.length bs + 7) / 8) <= List.length s ->
+    write_bits (8 * q + r) bs s =
+    firstn (8 * q) s ++
+    write_bits r bs (firstn (8 * ((r + List.length bs + 7) / 8)) (skipn (8 * q) s)) ++
+    skipn (8 * (q + (r + List.length bs + 7) / 8)) s.
+Proof. exact write_bits_window. Qed.
+Print Assumptions C01_write_is_local.
